@@ -12,7 +12,9 @@ Operations
   auth <a|d|m> <policies> <names>                 stateless: parse, merge, load, decide
   reset <a|d|m> <dc>                               new store, new caches
   pol <id> <modidx> <tag> <dcs> <policy>  | delpol <id> | delrole <id> | deltok <secret>
-  role <id> <policy ids> <svc ids> <node ids>  | tok <secret> <policy ids> <role ids> <svc ids> <node ids>
+  role <id> <policy ids> <svc ids> <node ids> [<templated policies>]
+  tok <secret> <policy ids> <role ids> <svc ids> <node ids> [<templated policies>]
+  templated policy   `<s|n|d|m|g|c template><0|1 variables present>;<name>;<dc>+<dc>…`
   compile <e|x> <policy ids> <names>               ACLPolicies.Compile through the shared caches (e: print hit + cache sizes)
   resolve <secret> <names>                         ACLResolver.ResolveToken through the shared caches
   purge                                            empty the caches
@@ -91,6 +93,24 @@ def parseNode (tok : String) : Option NodeId :=
   | [n, d] => do pure ⟨← decB n, ← decB d⟩
   | _ => none
 
+def tmplOfChar : Char → Option Tmpl
+  | 's' => some .service | 'n' => some .node | 'd' => some .dns | 'm' => some .nomadServer
+  | 'g' => some .apiGateway | 'c' => some .nomadClient | _ => none
+
+/-- `<template char><0|1 variables present>;<name>;<dc>+<dc>…` -/
+def parseTp (tok : String) : Option TpId :=
+  match tok.splitOn ";" with
+  | [h, n, d] =>
+    match h.toList with
+    | [c, v] => do
+      let tmpl ← tmplOfChar c
+      let _ ← decBool (String.singleton v)
+      let name ← decB n
+      let dcs ← (if d == "" then some [] else (d.splitOn "+").mapM decB)
+      pure ⟨tmpl, name, dcs⟩
+    | _ => none
+  | _ => none
+
 def decChar : Dec → Char | .allow => 'a' | .deny => 'd' | .dflt => 'u'
 
 def namelessReqs : List Req :=
@@ -128,6 +148,20 @@ def parseDown (tok : String) : Option DownPolicy :=
 def ok (s : St) : St × String := (s, "ok")
 def bad (s : St) : St × String := (s, "bad-op")
 
+def roleOp (s : St) (id pids svcs nodes tps : String) : St × String :=
+  match decB id, parseNames pids, (decList svcs).mapM parseSvc, (decList nodes).mapM parseNode,
+        (decList tps).mapM parseTp with
+  | some id, some pids, some svcs, some nodes, some tps =>
+    ok { s with store := s.store.putRole ⟨id, pids, svcs, nodes, tps⟩ }
+  | _, _, _, _, _ => bad s
+
+def tokOp (s : St) (sec pids rids svcs nodes tps : String) : St × String :=
+  match decB sec, parseNames pids, parseNames rids, (decList svcs).mapM parseSvc, (decList nodes).mapM parseNode,
+        (decList tps).mapM parseTp with
+  | some sec, some pids, some rids, some svcs, some nodes, some tps =>
+    ok { s with store := s.store.putToken ⟨sec, pids, rids, svcs, nodes, tps⟩ }
+  | _, _, _, _, _, _ => bad s
+
 def step (s : St) (toks : List String) : St × String :=
   match toks with
   | ["auth", d, ps, ns] =>
@@ -160,15 +194,10 @@ def step (s : St) (toks : List String) : St × String :=
     match decB sec with
     | some sec => ok { s with store := s.store.delToken sec }
     | none => bad s
-  | ["role", id, pids, svcs, nodes] =>
-    match decB id, parseNames pids, (decList svcs).mapM parseSvc, (decList nodes).mapM parseNode with
-    | some id, some pids, some svcs, some nodes => ok { s with store := s.store.putRole ⟨id, pids, svcs, nodes⟩ }
-    | _, _, _, _ => bad s
-  | ["tok", sec, pids, rids, svcs, nodes] =>
-    match decB sec, parseNames pids, parseNames rids, (decList svcs).mapM parseSvc, (decList nodes).mapM parseNode with
-    | some sec, some pids, some rids, some svcs, some nodes =>
-      ok { s with store := s.store.putToken ⟨sec, pids, rids, svcs, nodes⟩ }
-    | _, _, _, _, _ => bad s
+  | ["role", id, pids, svcs, nodes] => roleOp s id pids svcs nodes "-"
+  | ["tok", sec, pids, rids, svcs, nodes] => tokOp s sec pids rids svcs nodes "-"
+  | ["role", id, pids, svcs, nodes, tps] => roleOp s id pids svcs nodes tps
+  | ["tok", sec, pids, rids, svcs, nodes, tps] => tokOp s sec pids rids svcs nodes tps
   | ["compile", mode, ids, ns] =>
     match parseNames ids, parseNames ns, (mode == "e" || mode == "x") with
     | some ids, some ns, true =>
